@@ -406,7 +406,13 @@ class MarkdownNormalizer(Renderer):
                 # within a quote block it would be the secondary prefix, like `> `.
                 result += self._second_prefix.strip() + "\n"
 
-        result += self.render_children(element)
+        if all(isinstance(child, block.BlankLine) for child in element.children):
+            # An empty list item still needs its marker, otherwise the item would vanish.
+            result += self._prefix.rstrip() + "\n"
+            self._prefix = self._second_prefix
+            self._suppress_item_break = False
+        else:
+            result += self.render_children(element)
 
         return result
 
